@@ -3,7 +3,7 @@
 From Cog Require Export Model.IR Model.Names.
 Local Open Scope list_scope.
 
-Definition A0 := attrs0.
+
 
 (* ---------- the pass language ---------- *)
 Definition objref := (string * string)%type.             (* package, object *)
